@@ -1,8 +1,12 @@
 package harness
 
 import (
+	"bufio"
+	"bytes"
 	"fmt"
+	"io"
 	"strings"
+	"testing/iotest"
 
 	"seehuhn.de/go/postscript"
 
@@ -141,6 +145,28 @@ func C12() *sim.Check {
 			}
 			c.St.Inc("scheduled_runs")
 		}
+		// the standard library's own reader types (they implement further
+		// interfaces - io.ByteReader, io.WriterTo, io.Seeker - that a library
+		// may single out)
+		if in.Offset == 0 {
+			kinds := []string{"bytes.Reader", "strings.Reader", "bytes.Buffer", "bufio.Reader", "iotest.DataErrReader", "iotest.OneByteReader", "iotest.HalfReader"}
+			kind := kinds[t.Choose(len(kinds))]
+			if kind == "iotest.DataErrReader" && len(in.Data) > 0 && in.Data[0] == 0x80 {
+				// iotest.DataErrReader loops for ever on a zero-length Read, which the
+				// PFB decoder legitimately issues for empty text segments
+				kind = "iotest.HalfReader"
+			}
+			d, e, p := safeConsume(in.Surf, stdReader(kind, in.Data), nil)
+			c.St.Inc("fired_std_reader_" + kind)
+			if p != nil || d != refRes || dump.Err(e) != refErr {
+				out := &sim.Outcome{Class: "delivery-dependent", Key: "deliver:" + in.Surf.String() + ":" + kind,
+					Detail: fmt.Sprintf("%s: result when reading from a %s differs from the one-read simulated delivery: %s (panic: %v)", in.Surf, kind, firstDiff(dump.Err(e)+" "+d, refErr+" "+refRes), p)}
+				if c.Explain {
+					out.Human = map[string]any{"surface": in.Surf.String(), "input": printable(in.Data), "input_desc": in.Desc, "reader": kind}
+				}
+				return out
+			}
+		}
 		c.St.Sample(map[string]any{"surface": in.Surf.String(), "input_desc": in.Desc, "bytes": len(in.Data), "input_head": printable(in.Data[:min(len(in.Data), 160)])})
 		return nil
 	}
@@ -227,8 +253,11 @@ func C12() *sim.Check {
 			}
 			c.St.Inc("multicall_with_start_check")
 		}
+		// the operation budget is part of the interpreter's state too: it must
+		// apply to the concatenation, not to each call
+		budget := []int{psSafetyBudget, psSafetyBudget, 40, 150, 600}[t.Choose(5)]
 		mk := func() *postscript.Interpreter {
-			in := newInterp(psSafetyBudget)
+			in := newInterp(budget)
 			in.CheckStart = checkStart
 			return in
 		}
@@ -314,3 +343,22 @@ func pieces(src []byte, cuts []int) []string {
 }
 
 var _ = postscript.ErrNoPostScript
+
+func stdReader(kind string, data []byte) io.Reader {
+	switch kind {
+	case "bytes.Reader":
+		return bytes.NewReader(data)
+	case "strings.Reader":
+		return strings.NewReader(string(data))
+	case "bytes.Buffer":
+		return bytes.NewBuffer(append([]byte{}, data...))
+	case "bufio.Reader":
+		return bufio.NewReaderSize(bytes.NewReader(data), 16)
+	case "iotest.DataErrReader":
+		return iotest.DataErrReader(bytes.NewReader(data))
+	case "iotest.OneByteReader":
+		return iotest.OneByteReader(bytes.NewReader(data))
+	default:
+		return iotest.HalfReader(bytes.NewReader(data))
+	}
+}
